@@ -182,20 +182,30 @@ fn verify_hash_for(data: &[u8]) {
 
 // @prop C01
 // @fn PeerHandler::verify_piece_hash, sha1_smol::Sha1
-// @bound concrete assembled buffers of 0, 1, 55, 56 and 64 bytes (SHA-1 padding boundaries), expected hash fully symbolic (2^160 values)
-// @outside symbolic piece contents beyond 4 bytes (thorough), SHA-1 collisions; sha1_smol itself is trusted
+// @bound concrete assembled buffers of 0 and 1 bytes, expected hash fully symbolic (2^160 values)
+// @outside symbolic piece contents; SHA-1 collisions; sha1_smol itself is trusted
 // @desc verify_piece_hash returns Ok exactly when the torrent's hash for the piece equals the SHA-1 of the assembled buffer, PieceHashMismatch otherwise; without an assigned piece it is an error
 #[kani::proof]
 #[kani::unwind(90)]
-fn c01_verify_hash_exact_concrete_buffers() {
+fn c01_verify_hash_exact_small_buffers() {
     verify_hash_for(&[]);
     verify_hash_for(&[0x61]);
-    verify_hash_for(&[0x5a; 55]);
-    verify_hash_for(&[0x5a; 56]);
-    verify_hash_for(&[0xa5; 64]);
     let rig = mk_rig(1, None);
     assert!(rig.h.verify_piece_hash().is_err(), "no assigned piece => error");
     std::mem::forget(rig);
+}
+
+// @prop C01
+// @tier thorough
+// @fn PeerHandler::verify_piece_hash, sha1_smol::Sha1
+// @bound concrete assembled buffers of 55, 56 and 64 bytes (SHA-1 padding boundaries: one block, two blocks), expected hash fully symbolic
+// @desc as c01_verify_hash_exact_small_buffers at the SHA-1 padding boundaries
+#[kani::proof]
+#[kani::unwind(90)]
+fn c01_verify_hash_exact_padding_boundaries() {
+    verify_hash_for(&[0x5a; 55]);
+    verify_hash_for(&[0x5a; 56]);
+    verify_hash_for(&[0xa5; 64]);
 }
 
 fn keep_alive_tick(k: u32) {
